@@ -159,3 +159,15 @@ claim("C09", "who-may-call table + dataflow (dropped content consumed) + guard d
       "Decides: bucket nodes are dropped only via drop_*_bucket from put/burn/drop_empty paths, each of which consumes the dropped content; "
       "drop_empty_bucket returns Ok only on the empty arm; the worktop is dropped only after drop_empty succeeded for its buckets; Kernel::invoke "
       "rejects orphaned nodes after auto_drop; auto_drop drops only the two proof blueprints. 'take never yields more than put' is not decided.")
+
+claim("C06", "who-may-write + guard dominance on limit checks and balance tests + dominating sanity assertions + liveness",
+      "Decides the limit/gating clauses only: cost units are committed only by consume_*_internal behind check_*_cost_unit_limit (same operand) and "
+      "the balance test; the limit checks reject when committed+new exceeds the limit; royalty deduction is behind the balance test; repay_all "
+      "returns Ok only when nothing is owed; finalize_fees_for_commit's three sanity assertions dominate its return; every FeeReserveError variant "
+      "and CostingParameters field is live. Every arithmetic clause (sums, tip rounding, distribution split) is not decided.")
+
+claim("C07", "variant-arm agreement + doomed-arm checks + reachability on both outcomes + constant agreement with static constant folding",
+      "Decides: at boot every non-simulated intent nullification passes the replay check and a failed replay/epoch-range check is rejected; "
+      "stored CommittedSuccess/CommittedFailure/Cancelled statuses are all rejecting with no catch-all; the tracker is updated for success and "
+      "failure whenever the epoch is readable, writing the status matching is_success; only subintents of failed transactions are skipped; the "
+      "tracker ring (epochs per partition x partitions) covers every configured max_epoch_range. Ring arithmetic over long histories is not decided.")
